@@ -16,7 +16,7 @@ var forkPkgs = []string{"phase0", "altair", "bellatrix", "capella", "deneb", "el
 
 func init() {
 	register(&Rule{Name: "sibling.cmp", Floor: 60,
-		Doc: "per-fork copies of one function (same name in phase0/altair/bellatrix/capella/deneb/electra) make the same comparisons as their nearest predecessor, up to the deltas frozen in siblingDeltas (each a spec change of that fork, with its reason). Comparisons are cuts with a refusal side; two copies' comparisons cancel when they agree once locals and one-line helpers are read through (equal names alone do not cancel: the same name may be defined differently), or when they agree named by type AND resolved; nil/error/boolean-literal tests and plain counting loops over len(x) are left out; a copy that walks a local table of rows is not compared here. A slip in one copy (operator, constant, field, dropped or added test) changes the difference and is reported with both copies' positions",
+		Doc: "per-fork copies of one function (same name in phase0/altair/bellatrix/capella/deneb/electra) make the same REFUSING comparisons (those that govern an error, false, REJECT/IGNORE, continue or break: the checks a copy can lose; a comparison that selects a value is formula.spec's) as their nearest predecessor, up to the deltas frozen in siblingDeltas (each a spec change of that fork, with its reason). Comparisons are cuts with a refusal side; two copies' comparisons cancel when they agree once locals and one-line helpers are read through (equal names alone do not cancel: the same name may be defined differently), or when they agree named by type AND resolved; a refusing comparison of one copy also cancels against the same test made without refusing in the other (a `continue` guard hoisted into a condition around the loop); nil/error/boolean-literal tests and plain counting loops over len(x) are left out; a copy that walks a local table of rows is not compared here. A slip in one copy (operator, constant, field, dropped or added test) changes the difference and is reported with both copies' positions",
 		Run: ruleSiblingCmp})
 	if len(os.Args) > 1 && os.Args[1] == "siblings" {
 		os.Exit(cmdSiblings(os.Args[2:]))
